@@ -63,7 +63,12 @@ def vtimer_src():
 
 
 class Daemon:
-    def __init__(self, ctx, exe, tag="d", key=None, nthreads=2, max_ttl=None, extra=(), env=None, clock=None, nss_db=None):
+    def __init__(self, ctx, exe, tag="d", key=None, nthreads=2, max_ttl=None, extra=(), env=None, clock=None, nss_db=None,
+                 foreground=True):
+        """foreground=False starts munged the way the shipped service files do (no -F: it forks into the background, the
+        process we spawn exits once the daemon is up; the daemon's pid is read from its pid file)"""
+        self.foreground = foreground
+        self.dpid = None
         self.ctx = ctx
         self.exe = exe
         self.dir = os.path.join(ctx.tmp, "%s-%d" % (tag, len(os.listdir(ctx.tmp))))
@@ -83,7 +88,8 @@ class Daemon:
         self._toff = 0
         self.asan_log = os.path.join(self.dir, "asan")
         self.logfile = os.path.join(self.dir, "log")
-        self.args = [exe, "-F", "-S", self.sock, "--key-file=" + self.keyfile,
+        self.pidfile = os.path.join(self.dir, "pid")
+        self.args = [exe] + (["-F"] if foreground else []) + ["-S", self.sock, "--key-file=" + self.keyfile,
                      "--pid-file=" + os.path.join(self.dir, "pid"), "--seed-file=" + os.path.join(self.dir, "seed"),
                      "--log-file=" + self.logfile,
                      "--num-threads=%d" % nthreads] + \
@@ -115,7 +121,10 @@ class Daemon:
         os.replace(self.nss_db + ".tmp", self.nss_db)
 
     def sighup(self, settle=0.3):
-        self.p.send_signal(signal.SIGHUP)
+        if self.foreground:
+            self.p.send_signal(signal.SIGHUP)
+        elif self.dpid:
+            os.kill(self.dpid, signal.SIGHUP)
         time.sleep(settle)
 
     def set_clock(self, t):
@@ -144,27 +153,77 @@ class Daemon:
                     s = socket.socket(socket.AF_UNIX, socket.SOCK_STREAM)
                     s.connect(self.sock)
                     s.close()
+                    if not self.foreground:
+                        try:
+                            self.dpid = int(open(self.pidfile).read().split()[0])
+                        except (OSError, ValueError, IndexError):
+                            time.sleep(0.02)
+                            continue
                     return True
                 except OSError:
                     pass
-            if self.p.poll() is not None:
+            if self.p.poll() is not None and (self.foreground or self.p.returncode != 0):
                 return False
             time.sleep(0.02)
         return False
+
+    def signal(self, sig):
+        """deliver a signal to the daemon process (the forked one when it runs in the background)"""
+        if self.foreground:
+            self.p.send_signal(sig)
+        elif self.dpid:
+            os.kill(self.dpid, sig)
 
     def _kill(self):
         try:
             if self.p is not None and self.p.poll() is None:
                 self.p.kill()
+            if self.dpid:
+                os.kill(self.dpid, 9)
         except Exception:
             pass
 
     def alive(self):
+        if not self.foreground:
+            if not self.dpid:
+                return False
+            try:
+                os.kill(self.dpid, 0)
+                return open("/proc/%d/stat" % self.dpid).read().split()[2] != "Z"
+            except OSError:
+                return False
         return self.p is not None and self.p.poll() is None
 
     def stop(self, timeout=20.0):
         """SIGTERM, wait; returns (exit code, sanitizer report text)"""
         rc = None
+        if not self.foreground:
+            if self.dpid and self.alive():
+                os.kill(self.dpid, signal.SIGTERM)
+                t0 = time.time()
+                while self.alive() and time.time() - t0 < timeout:
+                    time.sleep(0.05)
+                    if time.time() - t0 > 1.0:
+                        try:
+                            s = socket.socket(socket.AF_UNIX, socket.SOCK_STREAM)
+                            s.settimeout(0.2)
+                            s.connect(self.sock)
+                            s.close()
+                        except OSError:
+                            pass
+                if self.alive():
+                    os.kill(self.dpid, 9)
+                    rc = -9
+                else:
+                    rc = 0
+            self.dpid = None
+            try:
+                self.p.wait(timeout=5)
+                self._errf.close()
+                self.stderr = open(os.path.join(self.dir, "stderr"), errors="replace").read()
+            except Exception:
+                self.stderr = ""
+            return rc, self.sanitizer_report()
         if self.p is not None:
             if self.p.poll() is None:
                 self.p.send_signal(signal.SIGTERM)
